@@ -34,8 +34,9 @@ LEVEL = {
     "decided": "C14: (R14.1) registration and unwind use the same end; (R14.2) __aexit__ abstractly evaluated over all "
                "stacks of 0..3 exits x {falsy, truthy, raises} x {exception received or not} (80 executions) matches the "
                "nested-with reference model in invocation order, exception triple passed to each exit and final "
-               "outcome; (R14.3) the callback container is empty after every unwind; (R14.4) enter_context registers "
-               "only after a successful enter; (R14.5) callbacks never suppress and keep their arguments; (R14.6) "
+               "outcome; (R14.3) the callback container is empty after every unwind; (R14.4) enter_context as a table (async / sync manager x "
+               "enter succeeds / raises, and a sync object without __exit__): entered once, its own exit registered only after "
+               "a successful enter, never entered when the protocol is incomplete; (R14.5) callbacks never suppress and keep their arguments; (R14.6) "
                "pop_all moves the container.",
     "not_decided": "__context__ chaining details (_stitch_context), which the statement does not mention; behaviour "
                    "of the user's context managers themselves.",
